@@ -412,7 +412,47 @@ func (w *world) opGov(op kernel.Op) {
 	c := w.chain(op.Arg(0))
 	var content govtypes.Content
 	var what string
-	switch kernel.Mod(op.Arg(1), 4) {
+	switch kernel.Mod(op.Arg(1), 8) {
+	case 4, 5, 6:
+		// client life-cycle in the middle of relay traffic: upgrade the client of another chain to that
+		// chain's current height, replace it by a TSS client, or replace it (back) by a Tendermint client
+		var others []*xchain
+		for _, o := range w.chains {
+			if o.idx != c.idx {
+				others = append(others, o)
+			}
+		}
+		o := others[kernel.Mod(op.Arg(2), len(others))]
+		var err error
+		switch kernel.Mod(op.Arg(1), 8) {
+		case 4:
+			cs, cons := w.tmClientFor(o)
+			content, err = clienttypes.NewUpgradeClientProposal("up", "upgrade", o.Cfg.Name, cs, cons)
+			what = fmt.Sprintf("client:upgrade:%d:%d", o.idx, o.Height)
+		case 5:
+			cs, cons := w.tssClient()
+			content, err = clienttypes.NewToggleClientProposal("tg", "toggle to tss", o.Cfg.Name, cs, cons)
+			what = fmt.Sprintf("client:tss:%d:0", o.idx)
+		default:
+			cs, cons := w.tmClientFor(o)
+			content, err = clienttypes.NewToggleClientProposal("tg", "toggle to tendermint", o.Cfg.Name, cs, cons)
+			what = fmt.Sprintf("client:tm:%d:%d", o.idx, o.Height)
+		}
+		if err != nil {
+			return
+		}
+		w.rec.Fault("gov.client_lifecycle")
+	case 7:
+		// the TSS account's relayer registration is revoked (re-registered for another chain only) or restored
+		if w.cfg["tss"] == 0 {
+			return
+		}
+		chains, addrs := []string{w.tssName()}, []string{w.tss.Acc.String()}
+		if op.Arg(2)%2 == 0 {
+			chains = []string{"some-other-chain"}
+		}
+		content = clienttypes.NewRegisterRelayerProposal("reg", "tss relayer", w.tss.Acc.String(), chains, addrs)
+		what = "tssreg:" + chains[0]
 	case 0, 1:
 		// re-register relayer r with a changed chain list (drop or restore one chain)
 		r := kernel.Mod(op.Arg(2), len(w.relayers))
@@ -532,6 +572,39 @@ func (w *world) afterBlockGov(c *xchain) {
 			continue
 		}
 		w.rec.Logf("proposal %d (%s) on %s ended %s", g.id, g.what, c.Cfg.Name, st)
+		if st == govtypes.StatusPassed && strings.HasPrefix(g.what, "tssreg:") {
+			c.registry[w.tss.Acc.String()] = map[string]string{g.what[len("tssreg:"):]: w.tss.Acc.String()}
+			w.rec.Probe("gov.tss_registration_changed")
+		}
+		if st == govtypes.StatusPassed && strings.HasPrefix(g.what, "client:") {
+			var kind string
+			var oi int
+			var h uint64
+			parts := strings.Split(g.what, ":")
+			kind = parts[1]
+			fmt.Sscanf(parts[2], "%d", &oi)
+			fmt.Sscanf(parts[3], "%d", &h)
+			if c.clientKind == nil {
+				c.clientKind = map[int]string{}
+			}
+			switch kind {
+			case "upgrade":
+				// the installed consensus state is one more height the client vouches for
+				if c.clientKind[oi] != "tss" {
+					if c.accepted[oi] == nil {
+						c.accepted[oi] = map[uint64]bool{}
+					}
+					c.accepted[oi][h] = true
+				}
+			case "tss":
+				c.clientKind[oi] = "tss"
+				c.accepted[oi] = map[uint64]bool{}
+			case "tm":
+				c.clientKind[oi] = "tm"
+				c.accepted[oi] = map[uint64]bool{h: true}
+			}
+			w.rec.Probe("gov.client_" + kind)
+		}
 		if st == govtypes.StatusPassed && strings.HasPrefix(g.what, "relayer:") {
 			parts := strings.SplitN(g.what, ":", 4)
 			var r, as int
